@@ -48,7 +48,12 @@ def declareOfJson (self : Flav) (j : Json) : Except String Cmd := do
   let tag ← jstrOpt j "tag"
   let force ← jboolD j "force"
   let noaction ← jboolD j "noaction"
-  pure (Cmd.declare ⟨self, name, ver, dir, stack, tableNone, tag, force, noaction⟩)
+  let ext ← match j.getObjVal? "ext" with
+    | .ok (Json.arr a) => a.toList.mapM fun e => do
+        let x ← e.getArr?
+        if h : x.size = 2 then pure (Str.ofString (← x[0].getStr?), ← x[1].getNat?) else throw "ext: expected [path, content]"
+    | _ => pure []
+  pure (Cmd.declare ⟨self, name, ver, dir, stack, tableNone, tag, force, noaction, ext⟩)
 
 def setupOfJson (j : Json) : Except String (Option (Ver × Flav × Nat)) :=
   match j.getObjVal? "setup" with
@@ -140,12 +145,14 @@ def ofEff : Eff → Json
   | .assign s t n f v => Json.arr #["assign", Json.num s, ofStr t, ofStr n, ofStr f, ofStr v]
   | .unassign s t n f => Json.arr #["unassign", Json.num s, ofStr t, ofStr n, ofStr f]
   | .rmTree d => Json.arr #["rmTree", ofDir d]
+  | .copyExtra x => Json.arr #["copyExtra", Json.num x.stack, ofStr x.flav, ofStr x.name, ofStr x.ver, ofStr x.path, Json.num x.content]
 def ofMsg : Msg → Json
   | .declaring s t => Json.arr #["declaring", Json.num s, ofTagOpt t]
   | .assigning t => Json.arr #["assigning", ofStr t]
   | .untag t => Json.arr #["untag", ofStr t]
   | .removing v s => Json.arr #["removing", ofStr v, Json.num s]
   | .rmrf d => Json.arr #["rmrf", ofDir d]
+  | .copy path => Json.arr #["copy", ofStr path]
 
 def ofCache (c : CacheFile) : Json :=
   Json.mkObj [("user", Json.num c.user), ("stack", Json.num c.stack), ("flavor", ofStr c.flav),
@@ -180,7 +187,9 @@ def handle : Handler := fun j => do
        ("caches", Json.arr (w.caches.map ofCache).toArray),
        ("touch", Json.arr (w.touch.map ofTouch).toArray),
        ("dirs", Json.arr (w.dirs.map fun d => ofDir d.dir).toArray),
-       ("files", ofFileDb F)]
+       ("files", ofFileDb F),
+       ("extras", Json.arr (w.extras.map fun x =>
+          Json.arr #[Json.num x.stack, ofStr x.flav, ofStr x.name, ofStr x.ver, ofStr x.path, Json.num x.content]).toArray)]
   pure (Json.mkObj [("steps", Json.arr steps)])
 
 end EupsModel.Drv.C06
